@@ -5,10 +5,10 @@ import os
 import re
 import tlc
 
-GEN_RE = re.compile(r'<<"GEN", "(.*?)">>')
+GEN_RE = re.compile(r'<<\s*"GEN",\s*"(.*?)"\s*>>', re.S)
 
 
-def generate_paths(ctx, module, cfg, timeout=900, limit=None):
+def generate_paths(ctx, module, cfg, timeout=900, limit=None, conn_paths=False):
     cfgp = os.path.join(tlc.SPEC, 'mc', cfg + '.cfg')
     wd = os.path.join(ctx.out, 'gen-' + cfg)
     rc, out, wall = tlc.run_tlc(os.path.join('mc', module), cfgp, wd, workers=1, timeout=timeout, xmx='8g')
@@ -23,7 +23,10 @@ def generate_paths(ctx, module, cfg, timeout=900, limit=None):
     paths = []
     for m in GEN_RE.finditer(out):
         p = json.loads(m.group(1).replace('\\"', '"'))
-        paths.append([[bytes(x) for x in cmd] for cmd in p])
+        if conn_paths:
+            paths.append([(st[0], [bytes(x) for x in st[1]]) for st in p])
+        else:
+            paths.append([[bytes(x) for x in cmd] for cmd in p])
     if limit and len(paths) > limit:
         step = len(paths) / float(limit)
         paths = [paths[int(i * step)] for i in range(limit)]
